@@ -116,6 +116,10 @@ Definition wt (w : Q) : Z :=
 Definition is_one (w : Q) : bool :=
   Qlt_bool (-1 # 1000000000000) w && Qlt_bool w (1 # 1000000000000).
 
+(* The clamp: a literal of probability 0 has log-weight -inf; max(-10000, -inf) = -10000, so its soft
+   clause costs 10000 * 10000 = 10^8 (NOT a hard clause).  Any rational <= -10000 stands for -inf. *)
+Definition clamped_cost : Z := 100000000%Z.
+
 Definition clause := list Z.
 Definition wclause := (Z * clause)%type.
 
@@ -157,6 +161,13 @@ Fixpoint logprob (A : Z -> bool) (a : Z) (lw : list (Q * Q)) : Q :=
   match lw with
   | [] => 0%Q
   | (wp, wn) :: t => ((if A a then wp else wn) + logprob A (a + 1)%Z t)%Q
+  end.
+
+(* does the assignment use a literal whose log-weight is clamped (probability 0, or below e^-10000)? *)
+Fixpoint uses_clamped (A : Z -> bool) (a : Z) (lw : list (Q * Q)) : bool :=
+  match lw with
+  | [] => false
+  | (wp, wn) :: t => Qle_bool (if A a then wp else wn) (-10000 # 1) || uses_clamped A (a + 1)%Z t
   end.
 
 (* mpe_maxsat read-back: prob *= weights[i][0] if i in result, weights[i][1] if -i in result *)
